@@ -273,6 +273,14 @@ def run_unit(unit, rng, ctx):
                 if not cands:
                     continue
                 other = cands[int(rng.integers(len(cands)))]
+                if rng.uniform() < 0.3:
+                    # a restart chunk: its first frame repeats the current last configuration (possibly in another
+                    # periodic image), followed by new frames
+                    nf_ = int(rng.integers(1, 5))
+                    Pn = np.concatenate([live.P[-1:], live.P[-1:] + np.cumsum(rng.uniform(-0.1, 0.1, size=(nf_ - 1, live.P.shape[1], 3)), axis=0)]) if nf_ > 1 else live.P[-1:].copy()
+                    Pn = Pn - np.floor(Pn)
+                    other = Live(gen.make_trajectory(m, list(o.species), Pn + rng.integers(-1, 2, size=(1, Pn.shape[1], 3)), time_step=dt, metadata=dict(live.meta)), wrap01(Pn), live.names, m, dt, live.meta, f'restart chunk of {nf_} frames')
+                    ctx.count('extend_with_a_chunk_repeating_the_last_frame')
                 requery = bool(rng.integers(2))
                 if requery:
                     # derived quantities are asked before the object grows ...
